@@ -42,7 +42,8 @@ CONSTANTS
   Sessions,    \* e.g. {"A"} or {"A", "B"}
   Carriers,    \* 1..K: proxies the broker can ever hand out
   NUp, NDown,  \* segments written per session, upstream / downstream
-  MaxFaults    \* bound on environment faults
+  MaxFaults,   \* bound on environment faults
+  MaxDrops     \* how many queue-full drops are made explicit (they are stuttering steps otherwise)
 
 None == "none"
 Segs(n) == 1..n
@@ -61,9 +62,10 @@ VARIABLES
   rcvU,     \* [Sessions -> SUBSET 1..NUp]    segments the server's reliable layer has
   rcvD,     \* [Sessions -> SUBSET 1..NDown]  segments the client's reliable layer has
   acc,      \* [Sessions -> Nat]  connections accepted for the session
-  nf        \* faults so far
+  nf,       \* faults so far
+  ndrop     \* queue-full drops so far
 
-vars == <<car, owner, broken, att, cur, dead, csend, up, outQ, down, rcvU, rcvD, acc, nf>>
+vars == <<car, owner, broken, att, cur, dead, csend, up, outQ, down, rcvU, rcvD, acc, nf, ndrop>>
 
 Init ==
   /\ car = [k \in Carriers |-> "unborn"] /\ owner = [k \in Carriers |-> None]
@@ -72,7 +74,7 @@ Init ==
   /\ csend = [s \in Sessions |-> 0] /\ up = [k \in Carriers |-> 0]
   /\ outQ = [s \in Sessions |-> 0] /\ down = [k \in Carriers |-> 0]
   /\ rcvU = [s \in Sessions |-> {}] /\ rcvD = [s \in Sessions |-> {}]
-  /\ acc = [s \in Sessions |-> 0] /\ nf = 0
+  /\ acc = [s \in Sessions |-> 0] /\ nf = 0 /\ ndrop = 0
 
 (* The in-order prefix the reliable layer hands to the application. *)
 Prefix(S, n) == IF \E m \in 0..n : (\A j \in 1..m : j \in S) /\ (m = n \/ (m + 1) \notin S)
@@ -90,7 +92,7 @@ InFlightDown(s, i) == outQ[s] = i \/ \E k \in Carriers : owner[k] = s /\ down[k]
 Collect(k) ==
   /\ car[k] = "unborn" /\ \A j \in Carriers : j < k => car[j] # "unborn"
   /\ car' = [car EXCEPT ![k] = "pool"]
-  /\ UNCHANGED <<owner, broken, att, cur, dead, csend, up, outQ, down, rcvU, rcvD, acc, nf>>
+  /\ UNCHANGED <<owner, broken, att, cur, dead, csend, up, outQ, down, rcvU, rcvD, acc, nf, ndrop>>
 
 (* dialContext: snowflakes.Pop() (skips peers that are already closed). *)
 Pop(s, k) ==
@@ -98,7 +100,7 @@ Pop(s, k) ==
   /\ \A j \in Carriers : owner[j] = s => car[j] # "popped"
   /\ \A j \in Carriers : j < k => car[j] # "pool"
   /\ car' = [car EXCEPT ![k] = "popped"] /\ owner' = [owner EXCEPT ![k] = s]
-  /\ UNCHANGED <<broken, att, cur, dead, csend, up, outQ, down, rcvU, rcvD, acc, nf>>
+  /\ UNCHANGED <<broken, att, cur, dead, csend, up, outQ, down, rcvU, rcvD, acc, nf, ndrop>>
 
 (* conn.Write(Token); conn.Write(clientID): the carrier becomes the current one
    and the server's handler attaches. *)
@@ -106,19 +108,19 @@ WriteId(s, k) ==
   /\ car[k] = "popped" /\ owner[k] = s /\ ~broken[k]
   /\ car' = [car EXCEPT ![k] = "live"] /\ cur' = [cur EXCEPT ![s] = k]
   /\ att' = [att EXCEPT ![k] = TRUE]
-  /\ UNCHANGED <<owner, broken, dead, csend, up, outQ, down, rcvU, rcvD, acc, nf>>
+  /\ UNCHANGED <<owner, broken, dead, csend, up, outQ, down, rcvU, rcvD, acc, nf, ndrop>>
 
 (* The peer died between Pop and the first write. *)
 WriteIdFails(s, k) ==
   /\ car[k] = "popped" /\ owner[k] = s /\ broken[k]
   /\ car' = [car EXCEPT ![k] = "dead"]
-  /\ UNCHANGED <<owner, broken, att, cur, dead, csend, up, outQ, down, rcvU, rcvD, acc, nf>>
+  /\ UNCHANGED <<owner, broken, att, cur, dead, csend, up, outQ, down, rcvU, rcvD, acc, nf, ndrop>>
 
 (* WebRTCPeer.checkForStaleness: nothing received for the timeout. *)
 StaleClose(s) ==
   /\ cur[s] # 0 /\ car[cur[s]] = "frozen"
   /\ car' = [car EXCEPT ![cur[s]] = "dead"] /\ cur' = [cur EXCEPT ![s] = 0]
-  /\ UNCHANGED <<owner, broken, att, dead, csend, up, outQ, down, rcvU, rcvD, acc, nf>>
+  /\ UNCHANGED <<owner, broken, att, dead, csend, up, outQ, down, rcvU, rcvD, acc, nf, ndrop>>
 
 -----------------------------------------------------------------------------
 (* Packets. *)
@@ -127,7 +129,20 @@ StaleClose(s) ==
 ClientSend(s, i) ==
   /\ ~dead[s] /\ i \in Segs(NUp) /\ i \notin rcvU[s] /\ ~InFlightUp(s, i) /\ csend[s] = 0
   /\ csend' = [csend EXCEPT ![s] = i]
-  /\ UNCHANGED <<car, owner, broken, att, cur, dead, up, outQ, down, rcvU, rcvD, acc, nf>>
+  /\ UNCHANGED <<car, owner, broken, att, cur, dead, up, outQ, down, rcvU, rcvD, acc, nf, ndrop>>
+
+(* The send queue is full (nobody drains it: the redial layer is between two
+   carriers, or the carrier is slow): RedialPacketConn.WriteTo DROPS the packet
+   and reports success.  The reliable layer treats a write error as fatal, so
+   "drop, never an error" is part of what keeps the stream alive across an
+   outage: there is no transition from a full queue to dead[s], and the
+   segment stays eligible for retransmission.  (Without the counter this is a
+   stuttering step; MaxDrops makes a few of them explicit.) *)
+ClientSendDrop(s, i) ==
+  /\ ndrop < MaxDrops
+  /\ ~dead[s] /\ i \in Segs(NUp) /\ i \notin rcvU[s] /\ ~InFlightUp(s, i) /\ csend[s] # 0
+  /\ ndrop' = ndrop + 1
+  /\ UNCHANGED <<car, owner, broken, att, cur, dead, csend, up, outQ, down, rcvU, rcvD, acc, nf>>
 
 (* exchange: sendQueue -> conn.WriteTo on the current carrier (a frozen
    carrier swallows the packet). *)
@@ -135,14 +150,14 @@ CarrierUp(s) ==
   /\ csend[s] # 0 /\ cur[s] # 0 /\ up[cur[s]] = 0
   /\ up' = [up EXCEPT ![cur[s]] = IF car[cur[s]] = "live" THEN csend[s] ELSE 0]
   /\ csend' = [csend EXCEPT ![s] = 0]
-  /\ UNCHANGED <<car, owner, broken, att, cur, dead, outQ, down, rcvU, rcvD, acc, nf>>
+  /\ UNCHANGED <<car, owner, broken, att, cur, dead, outQ, down, rcvU, rcvD, acc, nf, ndrop>>
 
 (* ServerMux: QueueIncoming tagged with the carrier's ClientID + KcpInput. *)
 ServerRecv(k) ==
   /\ att[k] /\ up[k] # 0
   /\ rcvU' = [rcvU EXCEPT ![owner[k]] = @ \cup {up[k]}]
   /\ up' = [up EXCEPT ![k] = 0]
-  /\ UNCHANGED <<car, owner, broken, att, cur, dead, csend, outQ, down, rcvD, acc, nf>>
+  /\ UNCHANGED <<car, owner, broken, att, cur, dead, csend, outQ, down, rcvD, acc, nf, ndrop>>
 
 (* ServerMux: Accept.  The stream open rides on the first upstream segment;
    with nothing to send upstream the open itself is segment "0": accepted as
@@ -151,13 +166,22 @@ Accept(s) ==
   /\ acc[s] = 0
   /\ IF NUp = 0 THEN \E k \in Carriers : owner[k] = s /\ att[k] ELSE 1 \in rcvU[s]
   /\ acc' = [acc EXCEPT ![s] = @ + 1]
-  /\ UNCHANGED <<car, owner, broken, att, cur, dead, csend, up, outQ, down, rcvU, rcvD, nf>>
+  /\ UNCHANGED <<car, owner, broken, att, cur, dead, csend, up, outQ, down, rcvU, rcvD, nf, ndrop>>
 
 (* The server's reliable layer (re)transmits: QueuePacketConn.WriteTo. *)
 ServerSend(s, i) ==
   /\ acc[s] > 0 /\ i \in Segs(NDown) /\ i \notin rcvD[s] /\ ~InFlightDown(s, i) /\ outQ[s] = 0
   /\ outQ' = [outQ EXCEPT ![s] = i]
-  /\ UNCHANGED <<car, owner, broken, att, cur, dead, csend, up, down, rcvU, rcvD, acc, nf>>
+  /\ UNCHANGED <<car, owner, broken, att, cur, dead, csend, up, down, rcvU, rcvD, acc, nf, ndrop>>
+
+(* The per-client outgoing queue is full (no carrier of the session is
+   attached, or it is half-open and slow): QueuePacketConn.WriteTo drops the
+   packet and reports success, for the same reason as on the client side. *)
+ServerSendDrop(s, i) ==
+  /\ ndrop < MaxDrops
+  /\ acc[s] > 0 /\ i \in Segs(NDown) /\ i \notin rcvD[s] /\ ~InFlightDown(s, i) /\ outQ[s] # 0
+  /\ ndrop' = ndrop + 1
+  /\ UNCHANGED <<car, owner, broken, att, cur, dead, csend, up, outQ, down, rcvU, rcvD, acc, nf>>
 
 (* ServerMux: DownFrame(k) pops the outgoing queue of the carrier's ClientID;
    a half-open or frozen carrier swallows the packet. *)
@@ -165,20 +189,20 @@ DownFrame(k) ==
   /\ att[k] /\ outQ[owner[k]] # 0 /\ down[k] = 0
   /\ down' = [down EXCEPT ![k] = IF car[k] = "live" /\ ~broken[k] THEN outQ[owner[k]] ELSE 0]
   /\ outQ' = [outQ EXCEPT ![owner[k]] = 0]
-  /\ UNCHANGED <<car, owner, broken, att, cur, dead, csend, up, rcvU, rcvD, acc, nf>>
+  /\ UNCHANGED <<car, owner, broken, att, cur, dead, csend, up, rcvU, rcvD, acc, nf, ndrop>>
 
 (* exchange: conn.ReadFrom -> recvQueue -> the client's reliable layer. *)
 ClientRecv(s) ==
   /\ cur[s] # 0 /\ down[cur[s]] # 0
   /\ rcvD' = [rcvD EXCEPT ![s] = @ \cup {down[cur[s]]}]
   /\ down' = [down EXCEPT ![cur[s]] = 0]
-  /\ UNCHANGED <<car, owner, broken, att, cur, dead, csend, up, outQ, rcvU, acc, nf>>
+  /\ UNCHANGED <<car, owner, broken, att, cur, dead, csend, up, outQ, rcvU, acc, nf, ndrop>>
 
 (* The server's handler notices that its carrier is gone. *)
 SrvDetach(k) ==
   /\ att[k] /\ car[k] = "dead" /\ up[k] = 0
   /\ att' = [att EXCEPT ![k] = FALSE]
-  /\ UNCHANGED <<car, owner, broken, cur, dead, csend, up, outQ, down, rcvU, rcvD, acc, nf>>
+  /\ UNCHANGED <<car, owner, broken, cur, dead, csend, up, outQ, down, rcvU, rcvD, acc, nf, ndrop>>
 
 -----------------------------------------------------------------------------
 (* Faults (environment; bounded by MaxFaults; no fairness). *)
@@ -193,7 +217,7 @@ Cut(k) ==
        THEN broken' = [broken EXCEPT ![k] = TRUE] /\ UNCHANGED <<car, cur>>
        ELSE /\ car' = [car EXCEPT ![k] = "dead"] /\ UNCHANGED broken
             /\ cur' = [s \in Sessions |-> IF cur[s] = k THEN 0 ELSE cur[s]]
-  /\ UNCHANGED <<owner, att, dead, csend, outQ, rcvU, rcvD, acc>>
+  /\ UNCHANGED <<owner, att, dead, csend, outQ, rcvU, rcvD, acc, ndrop>>
 
 (* The proxy freezes (SIGSTOP, black hole): nothing passes any more. *)
 Freeze(k) ==
@@ -201,24 +225,24 @@ Freeze(k) ==
   /\ nf' = nf + 1
   /\ car' = [car EXCEPT ![k] = "frozen"]
   /\ up' = [up EXCEPT ![k] = 0] /\ down' = [down EXCEPT ![k] = 0]
-  /\ UNCHANGED <<owner, broken, att, cur, dead, csend, outQ, rcvU, rcvD, acc>>
+  /\ UNCHANGED <<owner, broken, att, cur, dead, csend, outQ, rcvU, rcvD, acc, ndrop>>
 
 (* The broker's answer is lost / no proxy: this proxy never materialises. *)
 AnswerLost(k) ==
   /\ nf < MaxFaults /\ car[k] = "unborn" /\ \A j \in Carriers : j < k => car[j] # "unborn"
   /\ nf' = nf + 1
   /\ car' = [car EXCEPT ![k] = "dead"]
-  /\ UNCHANGED <<owner, broken, att, cur, dead, csend, up, outQ, down, rcvU, rcvD, acc>>
+  /\ UNCHANGED <<owner, broken, att, cur, dead, csend, up, outQ, down, rcvU, rcvD, acc, ndrop>>
 
 -----------------------------------------------------------------------------
 ClientNext ==
   \/ \E s \in Sessions, k \in Carriers : Pop(s, k) \/ WriteId(s, k) \/ WriteIdFails(s, k)
   \/ \E s \in Sessions : StaleClose(s) \/ CarrierUp(s) \/ ClientRecv(s)
-  \/ \E s \in Sessions, i \in Segs(NUp) : ClientSend(s, i)
+  \/ \E s \in Sessions, i \in Segs(NUp) : ClientSend(s, i) \/ ClientSendDrop(s, i)
 ServerNext ==
   \/ \E k \in Carriers : ServerRecv(k) \/ DownFrame(k) \/ SrvDetach(k)
   \/ \E s \in Sessions : Accept(s)
-  \/ \E s \in Sessions, i \in Segs(NDown) : ServerSend(s, i)
+  \/ \E s \in Sessions, i \in Segs(NDown) : ServerSend(s, i) \/ ServerSendDrop(s, i)
 EnvNext ==
   \/ \E k \in Carriers : Collect(k)
 FaultNext ==
@@ -266,7 +290,9 @@ OneCurrent ==
 NeverDead == \A s \in Sessions : ~dead[s]
 
 (* Liveness half: with bounded faults and one more carrier than faults every
-   byte written is eventually read, in both directions. *)
+   byte written is eventually read, in both directions - in particular after
+   an outage during which the queues overflowed and packets were dropped
+   (ClientSendDrop / ServerSendDrop): drops are invisible to the stream. *)
 Delivered == \A s \in Sessions : DeliveredUp(s) = NUp /\ DeliveredDown(s) = NDown /\ acc[s] = 1
 EventuallyDelivered == <>Delivered
 =============================================================================
